@@ -63,6 +63,11 @@ func safeExec(op Op) (out string, verdict string) {
 	return ex(op.Args)
 }
 
+// oneLine makes a verdict fit the line protocol: no spaces, no line breaks
+func oneLine(v string) string {
+	return strings.NewReplacer(" ", "_", "\n", "_/_", "\r", "", "\t", "_").Replace(v)
+}
+
 func parseOpLine(l string) (int, Op, bool) {
 	f := strings.Fields(l)
 	if len(f) < 3 {
@@ -111,7 +116,7 @@ func main() {
 			if v == "" {
 				v = "-"
 			}
-			fmt.Fprintf(impl, "%d %s | %s\n", n, strings.ReplaceAll(v, " ", "_"), o)
+			fmt.Fprintf(impl, "%d %s | %s\n", n, oneLine(v), o)
 			g.stat["kind:"+op.Kind]++
 			first := strings.Fields(o + " .")[0]
 			switch first {
@@ -178,7 +183,7 @@ func main() {
 			if v == "" {
 				v = "-"
 			}
-			fmt.Fprintf(w, "%d %s | %s\n", id, strings.ReplaceAll(v, " ", "_"), o)
+			fmt.Fprintf(w, "%d %s | %s\n", id, oneLine(v), o)
 		}
 		w.Flush()
 	default:
